@@ -15,7 +15,11 @@ RULE = ('Formulas of the fragment the explainer supports (no since/until; arithm
         'the cases, formulas up to depth 5 with styles plain / simple predicates (var cmp const, depth spent on temporal nesting) / two-branches (the same variable under two temporal operators with different windows); traces of length 1-8 on which the reference robustness at time 0 is < 0 (the formula is negated if it is satisfied). '
         'evaluate(); explain(); E = union of the index intervals reported under each input variable. Each case carries 10 generated '
         're-assignments of ALL samples (extreme +-1000 and small dyadic values); positions in E are put back to the original values and the '
-        'reference must still give rho(phi, w\', 0) < 0. Lane satisfied: rho(phi,w,0) > 0 => nothing is reported. Non-trivial = E does not '
+        'reference must still give rho(phi, w\', 0) < 0. Lane splitter: formulas T(s1 C1 (X(p) C2 s2)) - a wide temporal operator over connectives '
+        'whose other operands are predicates on separate variables with alternating / complementary sign patterns, so that the temporal operator X '
+        'is asked to explain several disjoint intervals; each variable occurs once, the formula is monotone in it, and the 8 assignments '
+        '"all non-reported samples of a variable at +1000 / -1000" contain the most adversarial one (sufficiency decided exactly); 8-16 traces of '
+        '3-9 samples per parsed formula, a failure is confirmed on a freshly parsed specification. Lane satisfied: rho(phi,w,0) > 0 => nothing is reported. Non-trivial = E does not '
         'cover every sample of every variable, the formula has >= 1 temporal operator and n >= 2; distinct = distinct (formula, trace) digests.')
 
 ASSUMPTIONS = [
@@ -27,6 +31,117 @@ ASSUMPTIONS = [
 EXPL = Profile(bin_temp=(), tbin=(), max_depth=4, max_bound=4, temporal_in_arith=False)
 
 ALT_VALUES = st.sampled_from([-1000.0, 1000.0, -1000.0, 1000.0, 0.0, 1.0, -1.0, 0.5, 2.0, -2.5, 3.0, 8.0, -8.0])
+
+
+SIGN_ALTS = [dict(zip('pqr', combo)) for combo in
+             [(a, b, c) for a in (-1000.0, 1000.0) for b in (-1000.0, 1000.0) for c in (-1000.0, 1000.0)]]
+
+
+@st.composite
+def splitter_case(draw, tier):
+    """T( s1 C1 ( X(p) C2 s2 ) ): a wide temporal operator on top, connectives whose other operands (predicates on the
+    variables q and r) change sign several times - so that X is asked to explain several disjoint intervals - and a temporal
+    operator X over the variable p.  Every variable occurs in exactly one predicate, so the formula is monotone in each
+    variable and the 8 assignments "all free samples of a variable at +1000 / at -1000" contain the most adversarial one:
+    for these cases sufficiency is decided exactly.  One formula is evaluated on several traces (one parse)."""
+    def pred(v):
+        pr = ('pred', draw(st.sampled_from(['>=', '>', '<=', '<'])), ('var', v), ('const', 0.0))
+        return ('un', 'not', pr) if draw(st.integers(0, 3)) == 0 else pr
+
+    def temporal(g, wide):
+        kind = draw(st.sampled_from(['tun', 'tun', 'un']))
+        if kind == 'un':
+            return ('un', draw(st.sampled_from(['once', 'historically', 'eventually', 'always', 'once', 'historically', 'eventually', 'always', 'prev', 'next', 'rise', 'fall'])), g)
+        b = draw(st.integers(2, 5)) if wide else draw(st.integers(0, 3))
+        a = draw(st.integers(0, min(b, 2)))
+        return ('tun', draw(st.sampled_from(['once', 'historically', 'eventually', 'always'])), a, b, g)
+    x = temporal(pred('p'), False)
+    if draw(st.integers(0, 2)) == 0:
+        x = ('un', 'not', x)
+    if draw(st.integers(0, 3)) == 0:
+        x = temporal(x, False)
+    conn = st.sampled_from(['and', 'or', 'implies'])
+    shape = draw(st.integers(0, 5))
+    if shape == 0:
+        inner = x                                  # X directly under the splitting connective
+    else:
+        inner = ('bin', draw(conn), x, pred('q')) if draw(st.booleans()) else ('bin', draw(conn), pred('q'), x)
+    if shape == 1:
+        inner = ('un', 'not', inner)
+    mid = ('bin', draw(conn), pred('r'), inner) if draw(st.booleans()) else ('bin', draw(conn), inner, pred('r'))
+    f = temporal(mid, True)
+    if draw(st.integers(0, 3)) == 0:
+        f = temporal(f, False)
+    n = draw(st.integers(3, 9))
+    ntr = 8 if tier == 'quick' else 16
+    full = (1 << n) - 1
+    alternating = sum(1 << i for i in range(0, n, 2))
+
+    def pattern():
+        k = draw(st.integers(0, 5))
+        if k <= 2:
+            return draw(st.integers(0, full))
+        if k == 3:
+            return alternating ^ draw(st.sampled_from([0, full]))
+        if k == 4:                                  # one flip
+            return ((1 << draw(st.integers(0, n))) - 1) ^ draw(st.sampled_from([0, full]))
+        return draw(st.integers(0, full)) & draw(st.integers(0, full))
+    traces = []
+    for _ in range(ntr):
+        # sign patterns: q arbitrary; r in two cases out of three equal or complementary to q (with at most one sample
+        # flipped), so that the blame alternates between the operands of the outer connective; p constant half of the time
+        q = pattern()
+        k = draw(st.integers(0, 5))
+        if k <= 3:
+            r = q ^ (full if k & 1 else 0)
+            if draw(st.integers(0, 3)) == 0:
+                r ^= 1 << draw(st.integers(0, n - 1))
+        else:
+            r = pattern()
+        p = pattern() if draw(st.booleans()) else draw(st.sampled_from([0, full]))
+        mags = draw(st.integers(0, (1 << (3 * n)) - 1))
+        tr = {}
+        for j, (v, bits) in enumerate((('p', p), ('q', q), ('r', r))):
+            tr[v] = [(1.0 if (bits >> i) & 1 else -1.0) * (1 + ((mags >> (3 * i + j)) & 1)) for i in range(n)]
+        traces.append(tr)
+    return {'formula': f, 'vars': ['p', 'q', 'r'], 'traces': traces}
+
+
+def check_splitter(case):
+    """Runs the ordinary check on every trace of the case with the specification object parsed once per formula;
+    a failure is confirmed with a freshly parsed specification before it is reported."""
+    f = from_json(case['formula'])
+    cache = {}
+    nontrivial = False
+    labels = set()
+    n_ok = 0
+    for k, tr in enumerate(case['traces']):
+        n = len(tr['p'])
+        single = {'formula': case['formula'], 'vars': case['vars'], 'trace': tr, 'want_satisfied': False,
+                  'alts': [{v: [a[v]] * n for v in case['vars']} for a in SIGN_ALTS]}
+        v = check(single, cache)
+        if v.status == 'fail':
+            v = check(single)
+            if v.status == 'fail':
+                v.detail = 'trace %d of the case\n' % k + v.detail
+                return v
+            return FAIL('HARNESS:reused-specification-differs', 'trace %d: the check fails on a reused specification object only\n%s' % (k, v.detail), list(labels))
+        if v.status == 'pass':
+            n_ok += 1
+            nontrivial = nontrivial or v.nontrivial
+            labels.update(v.labels or ())
+    if not n_ok:
+        return DISCARD('all-traces-discarded', sorted(labels))
+    return PASS(nontrivial, sorted(labels))
+
+
+def splitter_candidates(case):
+    if len(case['traces']) > 1:
+        for tr in case['traces']:
+            yield dict(case, traces=[tr])
+    for c in std_candidates({'formula': case['formula'], 'vars': case['vars'], 'trace': case['traces'][0]}):
+        if set(c['vars']) == set(case['vars']) and len(case['traces']) == 1:
+            yield {'formula': c['formula'], 'vars': case['vars'], 'traces': [c['trace']]}
 
 
 @st.composite
@@ -89,7 +204,7 @@ def explained_positions(expl, names, n):
     return E, bad
 
 
-def check(case):
+def check(case, cache=None):
     f = from_json(case['formula'])
     vs = list(case['vars'])
     tr = {v: [float(x) for x in case['trace'][v]] for v in vs}
@@ -112,7 +227,11 @@ def check(case):
         r0 = -r0
     text = 'out = ' + show(f)
     try:
-        spec = build('dt_off', text, feed)
+        spec = cache.get(text) if cache is not None else None
+        if spec is None:
+            spec = build('dt_off', text, feed)
+            if cache is not None:
+                cache[text] = spec
         out = spec.evaluate(dt_dataset(w))
     except Exception as e:  # noqa
         return DISCARD('evaluate-raises(C01/C17):' + type(e).__name__, labels)
@@ -185,4 +304,5 @@ def candidates(case):
 LANES = [
     Lane('violated', lambda tier: cases(tier, False), check, 3000, 40000, candidates),
     Lane('satisfied', lambda tier: cases(tier, True), check, 800, 8000, candidates),
+    Lane('splitter', splitter_case, check_splitter, 4000, 40000, splitter_candidates),
 ]
